@@ -264,11 +264,12 @@ def m_truthy_idx(s):
 CAT = {}
 
 
-def entry(name, text, a, b, model, needs="num", keeps=(), out="num", first_only=False, max_n=None, last_only=False, eager=0):
+def entry(name, text, a, b, model, needs="num", keeps=(), out="num", first_only=False, max_n=None, last_only=False, eager=0,
+          judge_values=True):
     # eager: items of its input the stage takes when it is BUILT, whatever is demanded later (ḣ computes the head at once;
     # Ḣ and Ġ look at the first item).  Measured on the given tree for every entry: only these three take anything.
     CAT[name] = dict(name=name, text=text, a=a, b=b, model=model, needs=needs, keeps=set(keeps), out=out,
-                     first_only=first_only, max_n=max_n, last_only=last_only, eager=eager)
+                     first_only=first_only, max_n=max_n, last_only=last_only, eager=eager, judge_values=judge_values)
 
 
 ARITH = dict(needs="arith", out="same")
@@ -343,6 +344,40 @@ entry("filter_le1", "λ1≤;F", 1, 0, m_filter(lambda x: x <= 1), needs="consec"
 entry("interleave_exhaustible", ": λ5≤;F Y", 1, 1, lambda s: (v for i, x in enumerate(itertools.islice(s, 6)) for v in ((x, x) if i < 5 else (x,))),
       needs="consec", out="num", first_only=True, last_only=True, max_n=11)
 # a sparse head: the first item is far away, everything after it is dense (offsets must not be paid before they are due)
+class ModelRaises(Exception):
+    pass
+
+
+def m_cumsum_inf_rows(s):
+    acc = k = 0
+    for x in s:
+        acc, k = acc + x, k + 1
+        yield [acc + k, acc + 2 * k]
+
+
+def _is_prime(x):
+    return x > 1 and all(x % d for d in range(2, int(x ** 0.5) + 1))
+
+
+def m_raises_from_20(s):
+    for x in s:
+        if x >= 20:
+            raise ModelRaises()
+        yield x
+
+
+# items that are themselves infinite lists, accumulated by a scan: the k-th running row is a lazy sum of k infinite rows
+entry("cumsum_inf_rows", "ƛ Þ∞ + ; ¦ ƛ 2 Ẏ ;", 1, 1, m_cumsum_inf_rows, needs="consec", out="list", first_only=True, last_only=True)
+entry("scan_inf_rows", "ƛ Þ∞ + ; ɖ+ ƛ 2 Ẏ ;", 1, 1, m_cumsum_inf_rows, needs="consec", out="list", first_only=True, last_only=True)
+# removing the items of an INFINITE (ascending) list from the stream: among 2n+4 consecutive integers at least n are composite
+# (values are not judged: on the given tree membership in an infinite list ignores what the list has already generated, so
+# what is removed depends on the history of earlier membership tests -- termination and the pull bound do not)
+entry("remove_primes", "Þp F", 2, 4, m_filter(lambda x: not _is_prime(x)), needs="consec", out="num", keeps=("inj",),
+      first_only=True, last_only=True, judge_values=False)
+# a filter whose test fails for every item from some point on: a demand beyond that point ends with the error (a counted
+# discard), it does not search on for ever
+entry("filter_raises_late", "λ 20 < [ 1 | 1 0 % ] ; F", 1, 1, m_raises_from_20, needs="consec", out="num", keeps=("inj", "consec"),
+      first_only=True, last_only=True)
 entry("filter_gt50", "λ50>;F", 1, 50, m_filter(lambda x: x > 50), needs="consec", out="num", keeps=("inj", "consec"), first_only=True)
 # indexing by an INFINITE list of indices
 entry("index_inf", "Þ∞ İ", 1, 1, m_drop(1), needs="any", out="same", keeps=("inj", "consec"))
@@ -480,7 +515,7 @@ class C14(core.Check):
         "density-sensitive transformations (filters, uniquify, remove, group) are only placed where the input stream "
         "keeps the property their bound needs",
     ]
-    rule = ("one run = a pipeline of 1-3 catalogued transformations (91 entries) applied by transpiled program text to an "
+    rule = ("one run = a pipeline of 1-3 catalogued transformations (95 entries) applied by transpiled program text to an "
             "instrumented infinite source, plus a demand schedule (index / first-n / stepping / resumption / two "
             "pipelines over `:`-copies pulled alternately / abandonment), n <= 40. distinct = distinct (pipeline(s), "
             "demand pattern, n); non-trivial = every run (each is judged on termination, pull bound and values).")
@@ -543,6 +578,12 @@ class C14(core.Check):
         if n > 40 and (mode not in ("index", "firstn", "elem_i", "elem_i_swapped", "slice_i", "slice_strided", "step", "resume")
                        or any(CAT[x]["out"] in ("list", "mixed") or x in ("flatten", "map_sum") for x in A)):
             n = 40  # threshold sizes only where the work per item does not itself grow with n
+        if any(CAT[x]["out"] in ("list", "mixed") for x in A):
+            # chunks of prefixes (and the like) cost honest work that is CUBIC in the number of source items: keep the
+            # source demand of such pipelines at 240 items or fewer, so that the step budget below is a spin detector and
+            # not a stopwatch (false alarm under seed 6: `K 4ẇ :Z`, 36 items, 2.9M steps of honest work)
+            while n > 1 and need_of(A, n) > 240:
+                n -= 1
         caps = [CAT[x]["max_n"] for x in A if CAT[x]["max_n"]]
         if caps:
             n = min(n, min(caps))
@@ -556,6 +597,9 @@ class C14(core.Check):
         capsb = [CAT[x]["max_n"] for x in B if CAT[x]["max_n"]]
         if capsb:
             nb = min(nb, min(capsb))
+        if B and any(CAT[x]["out"] in ("list", "mixed") for x in B):
+            while nb > 1 and need_of(B, nb) > 240:
+                nb -= 1
         if mode == "two" and B:
             bound = max(bound_of(A, n), bound_of(B, nb))
         elif mode == "slice_empty":
@@ -593,8 +637,11 @@ class C14(core.Check):
         def item_list(res, k):
             return [tm(res[i]) for i in range(k)]
 
+        judge_v = all(CAT[x]["judge_values"] for x in A)
+
         # prefixes / windows make the WORK quadratic in the number of source items although the pulls stay linear
-        step_budget = min(20_000_000, STEP_BUDGET + 40 * need_of(A, max(n, 1)) ** 2)
+        nd = need_of(A, max(n, 1)) + (need_of(B, max(nb, 1)) if mode == "two" and B else 0)
+        step_budget = min(60_000_000, STEP_BUDGET + 40 * nd ** 2 + 5 * nd ** 3)
         world.CLOCK.start(budget=step_budget)
         try:
             with world.rec_limit(900):
@@ -667,7 +714,7 @@ class C14(core.Check):
                         log.append(dict(pulls=pulled, bound=bound, got=got_items[:8]))
                         if pulled > bound:
                             return fail("pulls", f"{pulled} pulls from the source > bound {bound}")
-                        if got_items != want_items:
+                        if got_items != want_items and judge_v:
                             return fail("value", f"{mode}: got {got_items[:8]} != model {want_items[:8]}")
                         cov.add(f"n:{min(n // 10, 4)}:{mode}:{len(A)}")
                         return dict(verdict=OK, sig="", log=log, steps=world.CLOCK.steps + pulled, cov=sorted(cov), faults=faults,
@@ -721,12 +768,15 @@ class C14(core.Check):
         log.append(dict(pulls=pulled, bound=bound, first=got))
         if pulled > bound:
             return fail("pulls", f"{pulled} pulls from the source > bound {bound}")
-        want = [norm_model(x) for x in model_of(A, min(n, 8))]
-        if got != want:
+        try:
+            want = [norm_model(x) for x in model_of(A, min(n, 8))]
+        except ModelRaises:
+            return fail("value", f"first items {got} delivered where the pipeline's own test raises")
+        if got != want and judge_v:
             return fail("value", f"first items {got} != model {want}")
         if mode == "two" and B:
             wantB = [norm_model(x) for x in model_of(B, min(nb, 8))]
-            if gotB != wantB:
+            if gotB != wantB and all(CAT[x]["judge_values"] for x in B):
                 return fail("value", f"second pipeline {textB!r}: first items {gotB} != model {wantB}")
         cov.add(f"n:{min(n // 10, 4)}:{mode}:{len(A)}")
         return dict(verdict=OK, sig="", log=log, steps=steps + pulled, cov=sorted(cov), faults=faults,
